@@ -1,36 +1,15 @@
 (* Exact-arithmetic facts about detect_alphabet's tables and decision (C13, C14, C04). *)
 From KV Require Import Base FP Detect.
+From KV Require Export DetectDefs.
 From Coq Require Import Permutation.
 Local Open Scope Z_scope.
 
 (* exact value of a finite binary64, scaled by 2^1074 (always an integer) *)
-Definition f64_scaled (b : N) : Z :=
-  let z := Z.of_N b in
-  let sign := z / 2 ^ 63 in
-  let e := (z / 2 ^ 52) mod 2 ^ 11 in
-  let m := z mod 2 ^ 52 in
-  let v := if e =? 0 then m else (2 ^ 52 + m) * 2 ^ (e - 1) in
-  if sign =? 1 then - v else v.
 
-Definition is_finite64 (b : N) : bool := negb ((Z.of_N b / 2 ^ 52) mod 2 ^ 11 =? 2047).
 
 (* per-character exact margin DNA[i] - protein[i], scaled by 2^1074 *)
-Definition margins : list Z :=
-  map (fun dp => f64_scaled (fst dp) - f64_scaled (snd dp)) (combine detect_DNA detect_protein).
 
-Definition unit1074 : Z := 2 ^ 1074.
-Definition lower c := if (65 <=? c) && (c <=? 90) then c + 32 else c.
-Definition is_nuc_letter (c : Z) : bool :=
-  let l := lower c in (l =? 97) || (l =? 99) || (l =? 103) || (l =? 116) || (l =? 110). (* a c g t n *)
-Definition is_u_letter (c : Z) : bool := lower c =? 117.
-Definition is_protein_only (c : Z) : bool :=
-  let l := lower c in
-  existsb (Z.eqb l) [100;101;102;104;105;107;108;109;112;113;114;115;118;119;121]. (* d e f h i k l m p q r s v w y *)
-Definition is_other_letter (c : Z) : bool :=
-  isalpha c && negb (is_nuc_letter c) && negb (is_u_letter c) && negb (is_protein_only c).
 
-Definition idx128 := map Z.of_nat (seq 0 128).
-Definition margin_at (c : Z) : Z := nthZ 0 margins c.
 
 (* C13_exact_margins: in nats, scaled.  1.2039 < nucleotide < 1.2040, 11.20 < u < 11.21,
    -10.28 < protein-only < -10.27, -0.2763 < other letter < -0.2762 *)
@@ -52,27 +31,10 @@ Lemma tables_case_symmetric_b :
 Proof. vm_compute. reflexivity. Qed.
 
 (* the exact decision value of a histogram: sum over letters of count * margin *)
-Fixpoint exact_loop (i : Z) (freq : list Z) (ms : list Z) : Z :=
-  match freq, ms with
-  | c :: freq', m :: ms' => (if negb (c =? 0) && isalpha i then c * m else 0) + exact_loop (i + 1) freq' ms'
-  | _, _ => 0
-  end.
-Definition exact_margin (freq : list Z) : Z := exact_loop 0 freq margins.
 
 (* a histogram whose counted letters all satisfy [good] *)
-Fixpoint hist_only (good : Z -> bool) (i : Z) (freq : list Z) : Prop :=
-  match freq with
-  | [] => True
-  | c :: freq' => 0 <= c /\ (c <> 0 -> isalpha i = true -> good i = true) /\ hist_only good (i + 1) freq'
-  end.
 
-Fixpoint total_letters (i : Z) (freq : list Z) : Z :=
-  match freq with
-  | [] => 0
-  | c :: freq' => (if isalpha i then c else 0) + total_letters (i + 1) freq'
-  end.
 
-Definition nuc_or_u c := is_nuc_letter c || is_u_letter c.
 
 Lemma margin_pos_nuc c : 0 <= c < 128 -> nuc_or_u c = true -> 12039 * unit1074 < 10000 * margin_at c.
 Proof.
@@ -174,14 +136,7 @@ Theorem histogram_perm l1 l2 : Permutation l1 l2 -> histogram l1 = histogram l2.
 Proof. intro H. unfold histogram. apply histogram_from_perm. exact H. Qed.
 
 (* ---- a linear upper bound of the exact margin by letter classes ----------------------------- *)
-Fixpoint class_count (cls : Z -> bool) (i : Z) (freq : list Z) : Z :=
-  match freq with
-  | [] => 0
-  | c :: freq' => (if isalpha i && cls i then c else 0) + class_count cls (i + 1) freq'
-  end.
 
-Fixpoint hist_nonneg (freq : list Z) : Prop :=
-  match freq with [] => True | c :: t => 0 <= c /\ hist_nonneg t end.
 
 Lemma class_bounds c : 0 <= c < 128 -> isalpha c = true ->
   (is_nuc_letter c = true /\ 10000 * margin_at c < 12040 * unit1074) \/
@@ -209,8 +164,6 @@ Proof.
   match goal with E : (_ <? _) && (10000 * margin_at c <? -2762 * unit1074) = true |- _ => apply andb_true_iff in E as [_ E]; apply Z.ltb_lt in E; exact E end.
 Qed.
 
-Definition only_u c := is_u_letter c && negb (is_nuc_letter c).
-Definition only_po c := is_protein_only c && negb (is_nuc_letter c) && negb (is_u_letter c).
 
 Lemma exact_upper_loop : forall freq i ms,
   0 <= i -> i + Z.of_nat (length freq) <= 128 ->
